@@ -5,7 +5,8 @@ file x settings and every iteration of the fix loop up to the fixpoint; the real
 (NameCheckVisitor(add_ignores=True).check_for_test(apply_changes=True), re-run on its own output) is
 driven on the realised files and its Begin/Iter/End event stream validated by TLC (FixLoopTrace.tla).
 
-Part B (replacement fixes) lives in c16_replacements (post-condition trace).
+Part B (replacement fixes: missing_f, use_fstrings, unused_variable, too_many_positional_args, unused_ignore) is
+spec/FixReplace.tla + FixReplaceTrace.tla, driven by c16b.py.
 """
 from __future__ import annotations
 
@@ -153,7 +154,16 @@ def run(check: core.Check) -> None:
     sim_cases = core.simulate_cases("FixLoopEmit", "FixLoop.sim.cfg", 600 if quick else 10000, depth=24,
                                     seed=check.seed + 5, check=check)
     judge(check, sim_cases, "tlc-simulate")
+    # part B: replacement fixes
+    from . import c16b
+
+    c16b.run_part_b(check, quick)
 
 
 def replay(check: core.Check, witness: dict) -> None:
+    if witness["case"].get("part") == "replacement":
+        from . import c16b
+
+        c16b.replay_part_b(check, witness)
+        return
     judge(check, [witness["case"]], "replay")
